@@ -202,6 +202,8 @@ def _gen_queries(rng, cfg, model, nq):
         if b - a > 20000:
             b = a + 20000
         q = {"q": "read", "a": a, "b": b}
+        if rng.random() < 0.2:
+            q["btype"] = rng.choice(["i8", "u8"])   # range given as numpy integer scalars
         r = rng.random()
         if r < 0.35:
             inner = [e for e in ed if a <= e < b]
@@ -852,12 +854,15 @@ def _queries(ctx, readers, cfg, model, queries):
         try:
             if q["q"] == "read":
                 a, b = q["a"], q["b"]
-                errs = RC.read_vs_model(rd, cfg, model, a, b)
+                errs = RC.read_vs_model(rd, cfg, model, a, b, btype=q.get("btype"))
                 ctx.emit(errs)
                 if errs:
                     continue
                 full = [(int(k), M.canon_bits(v)) for k, v in rd.read(a, b, ch).items()]
-                gcb = rd.get_continuous_blocks(a, b, ch)
+                conv = RC.BOUND_TYPES.get(q.get("btype"), int) if (q.get("btype") != "i8" or b < 2**63) else int
+                if q.get("btype"):
+                    res.probe("numpy_typed_range_bounds")
+                gcb = rd.get_continuous_blocks(conv(a), conv(b), ch)
                 if [(int(k), int(v)) for k, v in gcb.items()] != [(s, x.shape[0]) for s, x in full]:
                     ctx.v("C08", "continuous_blocks_vs_read", "get_continuous_blocks(%d,%d)=%s but read gives %s" % (
                         a, b, list(gcb.items())[:5], [(s, x.shape[0]) for s, x in full][:5]))
